@@ -3791,6 +3791,12 @@ XPath::findAttributes(
                     XalanNode* const    theNode = attributeList->item(j);
                     assert(theNode != 0 && theNode->getNodeType() == XalanNode::ATTRIBUTE_NODE);
 
+                    // Namespace declarations are not on the attribute axis...
+                    if (DOMServices::isNamespaceDeclaration(static_cast<const XalanAttr&>(*theNode)) == true)
+                    {
+                        continue;
+                    }
+
                     const eMatchScore   score =
                         theTester(*theNode, XalanNode::ATTRIBUTE_NODE);
 
